@@ -73,7 +73,7 @@ def gen_writer(rng, tier, allow_omit=True):
             f[2] = str(tsv)
             merged[i] = " ".join(f)
         body.append(merged)
-        sigs[sid] = dict(dt=dt, total=total, first=first, spd=a_spd, omit_req=any(c.startswith("omit") for c in merged),
+        sigs[sid] = dict(dt=dt, total=total, first=first, spd=a_spd, sdf=sdf, sumdf=sumdf, omit_req=any(c.startswith("omit") for c in merged),
                          may_omit=any(c.startswith("omit") for c in merged) or (DT_BITS[dt] <= 8 and any(c.startswith("fsr") and c.split()[4] == "0" for c in merged)))
     if rng.random() < 0.5:
         body.append(["anno 0 %d 3f800000 1 0 2 g6.%d" % (t, t) for t in sorted(rng.sample(range(0, 1000), rng.choice([1, 3, 12])))])
